@@ -7,6 +7,7 @@ import PtModel.Sexp
 import PtModel.Lower
 import PtModel.Spec
 import PtModel.Affine
+import PtModel.Names
 import PtModel.HandleKernel
 import PtModel.HandleDist
 import PtModel.HandleEq
@@ -99,6 +100,28 @@ def handleAff : List Sx → Option String
   | [.atom "nonpos", a] => do some (showBool (isNonNeg (.scale (-1) (← parseAExpr a))))
   | _ => none
 
+/-- `(names (seed…) ((gen base) | (add name) | (conflicting name) …))` -/
+def handleNames : List Sx → Option String
+  | [.list seeds, .list ops] => do
+    let ss ← seeds.mapM Sx.asAtom?
+    let mut g : NameGen := ⟨ss.reverse, []⟩
+    let mut out : Array String := #[]
+    for op in ops do
+      match op with
+      | .list [.atom "gen", .atom b] =>
+        match g.gen b with
+        | some (n, g') => out := out.push n; g := g'
+        | none => out := out.push "!exhausted"
+      | .list [.atom "add", .atom n] =>
+        match g.addName n with
+        | some g' => out := out.push "ok"; g := g'
+        | none => out := out.push "!conflict"
+      | .list [.atom "conflicting", .atom n] =>
+        out := out.push (if g.existing.contains n then "#t" else "#f")
+      | _ => none
+    some ("(" ++ " ".intercalate out.toList ++ ")")
+  | _ => none
+
 def handle (q : Sx) : String :=
   match q with
   | .list (.atom "evalil" :: shp :: e :: .list binds :: []) =>
@@ -136,6 +159,10 @@ def handle (q : Sx) : String :=
      | none => "err:parse")
   | .list (.atom "aff" :: args) =>
     (match handleAff args with
+     | some r => "ok " ++ r
+     | none => "err:parse")
+  | .list (.atom "names" :: args) =>
+    (match handleNames args with
      | some r => "ok " ++ r
      | none => "err:parse")
   | .list (.atom "kernel" :: args) =>
